@@ -283,7 +283,14 @@ class Poly:
         r = {}
         for k1, v1 in self.t.items():
             for k2, v2 in o.t.items():
-                k = tuple(sorted(k1 + k2))
+                items = list(k1 + k2)
+                # cancel a * (1/a)
+                for a_ in [x for x in items if not x.startswith("1/(")]:
+                    inv = f"1/({a_})"
+                    if inv in items and a_ in items:
+                        items.remove(inv)
+                        items.remove(a_)
+                k = tuple(sorted(items))
                 r[k] = r.get(k, 0) + v1 * v2
         return Poly(r)
 
@@ -320,6 +327,13 @@ def to_poly(prog: Program, mod, e: ast.AST, rename=None) -> Poly:
             d = to_poly(prog, mod, e.right, rename)
             if d.is_const() and d.cval() != 0:
                 return to_poly(prog, mod, e.left, rename) * Poly({(): 1 / d.cval()})
+            if len(d.t) == 1:
+                # a single monomial c*a1*...*an: divide factor by factor, so x / a**2 == (x / a)**2 == x * (1/a) * (1/a)
+                (atoms_, coef), = d.t.items()
+                r = to_poly(prog, mod, e.left, rename) * Poly({(): 1 / coef})
+                for a_ in atoms_:
+                    r = r * Poly.atom(a_[3:-1] if a_.startswith("1/(") and a_.endswith(")") else f"1/({a_})")
+                return r
             return to_poly(prog, mod, e.left, rename) * Poly.atom(f"1/({d!r})")
     if isinstance(e, ast.BinOp) and isinstance(e.op, ast.Pow):
         k = prog.try_fold(mod, e.right)
